@@ -305,6 +305,7 @@ Qed.
 Section Table.
 Variable cl : lock -> cls.
 Variable tbl : lock_table.
+Variable unb : list fname.
 Variable A : fname -> list cls.
 Variable rkc : cls -> N.
 Hypothesis Hclosed : closed tbl A.
@@ -352,7 +353,7 @@ Qed.
 Definition rki (l : lock) : N := rkc (cl l).
 
 Lemma conforms_chk : forall es st H,
-  stack_inv st -> conforms cl tbl st es = true ->
+  stack_inv st -> conforms cl tbl unb st es = true ->
   Permutation H (concat (map snd st)) ->
   chk rki H (ops_of es) = true.
 Proof.
@@ -397,6 +398,7 @@ Proof.
         apply Permutation_app_tail. apply remove_one_perm. exact Hm.
     + (* call *)
       apply andb_prop in Hc. destruct Hc as [Hsite Hc].
+      apply andb_prop in Hsite. destruct Hsite as [_ Hsite].
       simpl. apply (IH ((g, []) :: (f, L) :: below)).
       * simpl. split; [exact Hsite|]. exact Hinv.
       * exact Hc.
@@ -409,7 +411,7 @@ Proof.
       * simpl in Hperm. exact Hperm.
 Qed.
 
-Lemma conforms_thread_ok : forall f es, conforms cl tbl [(f, [])] es = true ->
+Lemma conforms_thread_ok : forall f es, conforms cl tbl unb [(f, [])] es = true ->
   chk rki [] (ops_of es) = true.
 Proof.
   intros f es H. apply (conforms_chk es [(f, [])] []); [simpl; exact I | exact H | simpl; apply Permutation_refl].
@@ -417,30 +419,30 @@ Qed.
 
 End Table.
 
-Theorem table_discipline_sound : forall (cl : lock -> cls) tbl A,
+Theorem table_discipline_sound : forall (cl : lock -> cls) tbl unb A,
   closed tbl A -> acyclic (lock_order tbl A) -> no_reentrant tbl A ->
   forall gs : list (fname * list ev),
-    (forall f es, In (f, es) gs -> conforms cl tbl [(f, [])] es = true) ->
+    (forall f es, In (f, es) gs -> conforms cl tbl unb [(f, [])] es = true) ->
     forall sched, ~ deadlocked (run sched (map (fun g => thread_of (snd g)) gs)).
 Proof.
-  intros cl tbl A Hcl [rkc Hrk] _ gs Hgs sched.
+  intros cl tbl unb A Hcl [rkc Hrk] _ gs Hgs sched.
   apply (discipline_sound (rki cl rkc)).
   intros t Ht. apply in_map_iff in Ht. destruct Ht as [[f es] [<- Hin]].
   split; [reflexivity|]. simpl.
-  apply (conforms_thread_ok cl tbl A rkc Hcl Hrk f es). apply Hgs. exact Hin.
+  apply (conforms_thread_ok cl tbl unb A rkc Hcl Hrk f es). apply Hgs. exact Hin.
 Qed.
 
-Theorem table_discipline_completes : forall (cl : lock -> cls) tbl A,
+Theorem table_discipline_completes : forall (cl : lock -> cls) tbl unb A,
   closed tbl A -> acyclic (lock_order tbl A) -> no_reentrant tbl A ->
   forall gs : list (fname * list ev),
-    (forall f es, In (f, es) gs -> conforms cl tbl [(f, [])] es = true) ->
+    (forall f es, In (f, es) gs -> conforms cl tbl unb [(f, [])] es = true) ->
     forall sched, exists sched', all_done (run (sched ++ sched') (map (fun g => thread_of (snd g)) gs)).
 Proof.
-  intros cl tbl A Hcl [rkc Hrk] _ gs Hgs sched.
+  intros cl tbl unb A Hcl [rkc Hrk] _ gs Hgs sched.
   apply (discipline_completes (rki cl rkc)).
   intros t Ht. apply in_map_iff in Ht. destruct Ht as [[f es] [<- Hin]].
   split; [reflexivity|]. simpl.
-  apply (conforms_thread_ok cl tbl A rkc Hcl Hrk f es). apply Hgs. exact Hin.
+  apply (conforms_thread_ok cl tbl unb A rkc Hcl Hrk f es). apply Hgs. exact Hin.
 Qed.
 
 (* a numbering excludes cycles, in particular self-loops (re-acquisition of a held class) *)
@@ -524,17 +526,39 @@ Proof.
 Qed.
 
 (* the statement used per run: a table accepted by the checker admits no deadlock *)
-Theorem checked_table_sound : forall tbl, lock_discipline_ok tbl = true ->
+Theorem checked_table_sound : forall tbl unb, lock_discipline_ok tbl = true ->
   forall (cl : lock -> cls) (gs : list (fname * list ev)),
-    (forall f es, In (f, es) gs -> conforms cl tbl [(f, [])] es = true) ->
+    (forall f es, In (f, es) gs -> conforms cl tbl unb [(f, [])] es = true) ->
     forall sched,
       ~ deadlocked (run sched (map (fun g => thread_of (snd g)) gs)) /\
       exists sched', all_done (run (sched ++ sched') (map (fun g => thread_of (snd g)) gs)).
 Proof.
-  intros tbl H cl gs Hgs sched.
+  intros tbl unb H cl gs Hgs sched.
   destruct (lock_discipline_ok_sound tbl H) as [A [H1 [H2 H3]]]. split.
-  - apply (table_discipline_sound cl tbl A H1 H2 H3 gs Hgs).
-  - apply (table_discipline_completes cl tbl A H1 H2 H3 gs Hgs).
+  - apply (table_discipline_sound cl tbl unb A H1 H2 H3 gs Hgs).
+  - apply (table_discipline_completes cl tbl unb A H1 H2 H3 gs Hgs).
+Qed.
+
+(* the complete check: no function of the table is unbalanced (so the restriction of [conforms] to
+   balanced functions excludes nothing: every function may be a goroutine's root and may be
+   entered), and the conclusion of [checked_table_sound] holds *)
+Lemma balanced_ok_nil : forall names unb, balanced_ok names unb = true -> unb = [].
+Proof.
+  intros names [|f r] H; [reflexivity|]. unfold balanced_ok, returns_holding_lock in H. simpl in H. discriminate.
+Qed.
+
+Theorem checked_table_sound_full : forall names unb tbl, lock_discipline_ok_full names unb tbl = true ->
+  (forall g, existsb (N.eqb g) unb = false) /\
+  forall (cl : lock -> cls) (gs : list (fname * list ev)),
+    (forall f es, In (f, es) gs -> conforms cl tbl unb [(f, [])] es = true) ->
+    forall sched,
+      ~ deadlocked (run sched (map (fun g => thread_of (snd g)) gs)) /\
+      exists sched', all_done (run (sched ++ sched') (map (fun g => thread_of (snd g)) gs)).
+Proof.
+  intros names unb tbl H. unfold lock_discipline_ok_full in H.
+  apply andb_prop in H. destruct H as [Hb Hd]. split.
+  - apply balanced_ok_nil in Hb. subst. reflexivity.
+  - apply checked_table_sound. exact Hd.
 Qed.
 
 (* the boolean deadlock test used for witnesses *)
